@@ -121,6 +121,11 @@ ASSUMPTIONS = [
     "Parse fails on it for any method; the JSON-body comparison uses fully tagged shapes",
     "default= on slice members is outside the model (expected values of the 'defaults' stream are computed by the "
     "generator: [a,b,c] / [3,1,2]); default= on map members is not supported by the code (convertType: unsupported kind)",
+    "round trips run behind handler.LogHandler / DetailedLogHandler / ContentSecurityHandler (not strict, no decryptors: "
+    "unsigned requests pass through; validly signed requests are NOT generated) with bodies up to 1 MiB (70 and 300 KiB "
+    "fixed in every run)",
+    "floats: Spec.val_finite (no +Inf / -Inf / NaN in a result) is part of obs_ok on every route; float32 values above "
+    "MaxFloat32 are directed cases on the `,string`, string-mode, default=, slice / map element and from-string-array routes",
     "c05_roundtrip (httpc.buildRequest -> httpx.Parse): correspondence only (12% of the cases: request structs with "
     "path/form/header/json parts sent through an httptest server); well-formedness: path/form/header strings non-empty "
     "(an optional form string may be empty), no '/' and no '.'/'..' in path values, header values trimmed, header names "
@@ -842,6 +847,24 @@ def directed(rng):
         one(P("int"), mkopts(options=["10", "25"], string=True), O([("v", N(tok))]), "options-exact")
     for tok in ("1.5", "1", "15", "1.50"):
         one(P("f64"), mkopts(options=["1.5", "2"]), O([("v", N(tok))]), "options-exact")
+    # float32 above MaxFloat32 (and float64 above MaxFloat64): rejected on every route, never stored as +-Inf
+    for tok in ("1e39", "-1e39", "3.5e38", "340282356779733661637539395458142568448"):
+        one(P("f32"), mkopts(string=True), O([("v", S(tok))]), "float-overflow")
+        one(P("f32"), mkopts(string=True), O([("v", N(tok))]), "float-overflow")
+        one(P("f32"), None, O([("v", S(tok))]), "float-overflow")
+        out[-1]["strmode"] = True
+        one({"k": "ptr", "e": P("f32")}, mkopts(string=True, optional=True), O([("v", S(tok))]), "float-overflow")
+        one(P("f32"), mkopts(default=tok), O([]), "float-overflow")
+        one({"k": "slice", "e": P("f32")}, None, O([("v", A([S(tok)]))]), "float-overflow")
+        one({"k": "slice", "e": P("f32")}, None, O([("v", A([N(tok)]))]), "float-overflow")
+        one({"k": "slice", "e": {"k": "ptr", "e": P("f32")}}, None, O([("v", A([N(tok)]))]), "float-overflow")
+        one({"k": "map", "e": P("f32")}, None, O([("v", O([("k1", N(tok))]))]), "float-overflow")
+        one({"k": "slice", "e": P("f32")}, None, O([("v", S("[%s]" % tok))]), "float-overflow")
+    for tok in ("1e400", "-1e400"):
+        one(P("f64"), mkopts(string=True), O([("v", S(tok))]), "float-overflow")
+        one(P("f64"), mkopts(default=tok), O([]), "float-overflow")
+        one({"k": "slice", "e": P("f64")}, None, O([("v", A([S(tok)]))]), "float-overflow")
+        one({"k": "map", "e": P("f64")}, None, O([("v", O([("k1", N(tok))]))]), "float-overflow")
     # integer literals at and beyond the int64 edge: JSON, YAML and conf (JSON + YAML) must agree, never a wrapped number
     for k in ("int64", "int", "uint64", "f64", "uint", "str"):
         for tok in ("9223372036854775807", "9223372036854775808", "18446744073709551615", "-9223372036854775808"):
@@ -1047,7 +1070,8 @@ def rt_case(rng):
     # every method that may carry a body carries the JSON part; GET / HEAD travel without one
     method = rng.choice(["POST", "PUT", "PATCH", "DELETE", "OPTIONS"]) if njson else rng.choice(["GET", "HEAD", "POST", "DELETE", "OPTIONS", "PUT", "PATCH"])
     c = mkcase(rng, struct([]), O([]), ["roundtrip"], with_yaml=False, with_conf=False)
-    c.update({"rt": True, "rt_shape": struct(fs), "value": ["st", vs], "method": method, "pattern": "/" + "/".join(segs)})
+    c.update({"rt": True, "rt_shape": struct(fs), "value": ["st", vs], "method": method, "pattern": "/" + "/".join(segs),
+              "chain": rng.choice(["", "", "log", "detailed", "security", "all"])})
     return c
 
 
@@ -1481,7 +1505,7 @@ def big_case(rng, size):
     return c
 
 
-def big_rt_case(rng, size):
+def big_rt_case(rng, size, chain=None):
     """the httpc -> httpx round trip of a request whose JSON body is about `size` bytes"""
     c = mkcase(rng, struct([]), O([]), ["roundtrip", "big"], with_yaml=False, with_conf=False)
     alphabet = "abcdefghijklmnopqrstuvwxyz0123456789 -_."
@@ -1489,7 +1513,8 @@ def big_rt_case(rng, size):
     fs = [field("J0", "pad", P("str")), field("J1", "n", P("int")), field("Q0", "q", P("str"))]
     fs[2]["tag"] = part_tag("form", "q", mkopts())
     c.update({"rt": True, "rt_shape": struct(fs), "value": ["st", [["s", pad], ["i", "7"], ["s", "x"]]],
-              "method": rng.choice(["POST", "PUT", "DELETE"]), "pattern": "/api/big"})
+              "method": rng.choice(["POST", "PUT", "DELETE"]), "pattern": "/api/big",
+              "chain": chain if chain is not None else rng.choice(["", "log", "detailed", "security", "all"])})
     return c
 
 
@@ -1709,6 +1734,9 @@ def generate(rng, tier, n):
             cases.append(big_case(rng, size))
         cases.append(big_rt_case(rng, rng.choice([4096, 4097, 65536])))
         cases.append(big_rt_case(rng, 1 << 20))
+        # bodies beyond 64 KiB behind the log middlewares (body duplicated for logging) and the content-security handler
+        for size, chain in ((70 << 10, "log"), (70 << 10, "detailed"), (300 << 10, "all"), (300 << 10, rng.choice(["log", "detailed", "security"]))):
+            cases.append(big_rt_case(rng, size, chain))
         ns = numstr_cases(rng)                   # systematic from-string numerics: all in the thorough tier
         cases.extend(ns if tier == "thorough" else rng.sample(ns, 60))
     depth = 2
@@ -1771,7 +1799,8 @@ def drive(cases, tier):
     if co is None:
         return None, log2
     r_in = [{"conc": c["conc"], "shape": c["rt_shape"], "method": c["method"], "pattern": c["pattern"]} if c.get("conc") else
-            {"rt": True, "shape": c["rt_shape"], "value": c["value"], "method": c["method"], "pattern": c["pattern"]}
+            {"rt": True, "shape": c["rt_shape"], "value": c["value"], "method": c["method"], "pattern": c["pattern"],
+             "chain": c.get("chain", "")}
             if c.get("rt") else ({"direct": c["direct"], "shape": c["direct_shape"]} if c.get("direct") else
                                  ({"direct": {"kind": "jsonbody", "method": c["jsonbody"],
                                               "body": "" if c["jsonbody"] in ("GET", "HEAD") else c["json"]}, "shape": c["shape"]}
@@ -2092,7 +2121,7 @@ def bucket(case, obs):
         dfl = sum(1 for f in case["rt_shape"]["f"] if f["o"].get("default") is not None)
         if zeros:
             return ["stream:roundtrip", "rt-zero-members", "rt-build:" + r.get("build", {}).get("r", "?"), "rt-parse:" + r.get("rt", {}).get("r", "none")] + (["rt-default-members"] if dfl else [])
-        out = ["stream:roundtrip", "rt-method:%s%s" % (case["method"], "+json" if any(f["tag"].startswith("json") for f in case["rt_shape"]["f"]) else ""), "rt-build:" + r.get("build", {}).get("r", "?"), "rt-parse:" + r.get("rt", {}).get("r", "none")]
+        out = ["stream:roundtrip", "rt-chain:" + (case.get("chain") or "none"), "rt-method:%s%s" % (case["method"], "+json" if any(f["tag"].startswith("json") for f in case["rt_shape"]["f"]) else ""), "rt-build:" + r.get("build", {}).get("r", "?"), "rt-parse:" + r.get("rt", {}).get("r", "none")]
         for f in case["rt_shape"]["f"]:
             out.append("rt-part:" + f["tag"].split(":")[0])
         return out
